@@ -461,6 +461,22 @@ LoseCache(i) ==
     /\ act' = <<"LoseCache", i>>
     /\ UNCHANGED <<lockVal, pubVal, objs, staging, volatile, envv, subs, lockHist, pubHist, acks, discardedEarly, issuerObj>>
 
+\* cmd/recompute-cache on a down instance: the cache is rebuilt from the published tree -- the
+\* first occurrence of every entry among the leaves of its full tiles (the tool does not read the
+\* trailing partial tile), added to whatever the cache still holds (INSERT OR IGNORE)
+RebuildCache(i) ==
+    /\ CacheLoss /\ pc[i] = "down" /\ IsCp(pubVal)
+    /\ LET t == pubVal.tree
+           n == (Len(t) \div TW) * TW
+           firsts == {k \in 1..n : \A j \in 1..(k - 1) : t[j].e # t[k].e}
+           rows == {[e |-> t[k].e, idx |-> k - 1, ts |-> t[k].ts] : k \in firsts}
+           new == {r \in rows : \A c \in cache[i] : c.e # r.e}
+       IN /\ new # {}
+          /\ cache' = [cache EXCEPT ![i] = @ \cup new]
+    /\ cacheLost' = [cacheLost EXCEPT ![i] = TRUE]
+    /\ act' = <<"RebuildCache", i>>
+    /\ UNCHANGED <<lockVal, pubVal, objs, staging, volatile, envv, subs, lockHist, pubHist, acks, discardedEarly, issuerObj>>
+
 (***************************************************************************)
 (* C08: the adversary owns object storage.  It can delete or alter any     *)
 (* object, at any moment (between or during runs), but cannot sign: the    *)
@@ -510,7 +526,7 @@ LogNext ==
        \/ \E a, o \in B : \E t \in cur[i].todo : LoadApply(i, t, a, o) \/ TileUpload(i, t, a, o)
        \/ \E a \in B : DiscardBundle(i, a) \/ CachePut(i, a)
        \/ \E a, o \in B : IssuerEnsure(i, a, o)
-       \/ Crash(i) \/ LoseCache(i)
+       \/ Crash(i) \/ LoseCache(i) \/ RebuildCache(i)
 
 Next == (LogNext /\ UNCHANGED tampers) \/ (MaxTampers > 0 /\ TamperNext)
 
